@@ -1472,7 +1472,10 @@ pub mod verif {
         }
     }
 
-    pub fn daser_p2p(channel_capacity: usize) -> (Arc<P2p>, DaserP2pRig) {
+    /// the `P2p` handed to the daser (the type itself is crate-private)
+    pub struct DaserP2p(pub(crate) Arc<P2p>);
+
+    pub fn daser_p2p(channel_capacity: usize) -> (DaserP2p, DaserP2pRig) {
         let (cmd_tx, cmd_rx) = mpsc::channel(channel_capacity);
         let (peer_tracker_tx, peer_tracker_rx) = watch::channel(PeerTrackerInfo::default());
         let p2p = P2p {
@@ -1482,7 +1485,7 @@ pub mod verif {
             peer_tracker_info_watcher: peer_tracker_rx,
             local_peer_id: PeerId::random(),
         };
-        (Arc::new(p2p), DaserP2pRig { cmd_tx, cmd_rx, peer_tracker_tx })
+        (DaserP2p(Arc::new(p2p)), DaserP2pRig { cmd_tx, cmd_rx, peer_tracker_tx })
     }
 
     impl DaserP2pRig {
